@@ -275,7 +275,10 @@ pub fn run_check(prop: &str, tier: &str) -> i32 {
             let s = pick(&["mem-ttl-range", "mem-ttl", "mem-core", "disk-v3", "disk-v3-ttl", "focus-v3-ttl"], thorough);
             seq_check(prop, tier, s, &["C14"], budget * 0.3, &mut report);
             let bound = if thorough { 3 } else { 2 };
-            schedprops::run_programs(concprogs::scan_programs(thorough), bound, 3000, budget * 0.4, &schedprops::judge_linearizable, None, &["C14"], &mut report);
+            schedprops::run_programs(concprogs::scan_programs(thorough), bound, 3000, budget * 0.3, &schedprops::judge_linearizable, None, &["C14"], &mut report);
+            // index agreement at quiescence after the sweeper / lazy expiry raced a renewal of the key
+            let sweeps: Vec<schedprops::Program> = concprogs::sweep_programs(thorough).into_iter().filter(|p| thorough || p.name.starts_with("sweep-mem")).collect();
+            schedprops::run_programs(sweeps, bound, 3000, budget * 0.12, &schedprops::judge_linearizable, None, &["C14"], &mut report);
             c14::stress_supplement(&mut report, if thorough { 20.0 } else { 3.0 });
         }
         "C15" => {
